@@ -184,3 +184,39 @@ func VerifC07CustomExpand() {
 	w.size["new"], w.prio["new"] = r.Size(), r.Priority()
 	w.checkStep("new", nil, zone, upd, before, w.snap(ids), ids, false)
 }
+
+// VerifC07CommitOutdated: an offer computed before another allocation was
+// re-allocated is either refused, or - if Commit goes through - the commit
+// still obeys every placement rule against the state it is applied to.
+func VerifC07CommitOutdated() {
+	w := verifLayout(verifPickLayout())
+	w.build(verifParam("prior", 1))
+	if len(w.ids) == 0 {
+		return
+	}
+	spec := w.verifNewSpec(false)
+	r := spec.request("new")
+	o, err := w.a.GetOffer(r)
+	if err != nil {
+		return
+	}
+	ids := verifAllIDs(w, "new")
+	id := w.ids[verifChoice("target", len(w.ids))]
+	nodes := NodeMask(verifChoice("nodes", int(w.allMask())+1))
+	s0 := w.snap(ids)
+	if _, _, err := w.a.Realloc(id, nodes, 0); err != nil {
+		return
+	}
+	before := w.snap(ids)
+	if s0.same(before, ids) {
+		return
+	}
+	zone, upd, err := o.Commit()
+	if err != nil {
+		verifCover("outdated-offer-refused")
+		verifAssert("C07.refused-commit-changes-nothing", before.same(w.snap(ids), ids))
+		return
+	}
+	w.size["new"], w.prio["new"] = r.Size(), r.Priority()
+	w.checkStep("new", &spec, zone, upd, before, w.snap(ids), ids, false)
+}
